@@ -5,7 +5,7 @@ import hashlib
 import json
 import time
 
-from . import core, x_timeout, x_observers, x_demux, x_transport
+from . import core, x_timeout, x_observers, x_demux, x_transport, x_proxy
 from .core import Inconclusive
 
 COMMON_ASSUMPTIONS = [
@@ -462,3 +462,36 @@ PROPS['C19'] = dict(
     ],
     models=_c19_models(),
 )
+
+
+# ---- C16 / C17 (proxy) ---------------------------------------------------------
+PROPS['C16'] = dict(
+    gen=x_proxy.generate_c16, trace_spec='ProxyTrace.tla', own_attribution=True,
+    rule='raw-peer envelope sequences through a real goat.Proxy: single envelopes (6 interceptors x sender x 6 destination '
+         'classes x return route x incoming route record), random sequences over 1..3 (quick) / 1..8 clients and 1..2 / 1..4 '
+         'servers (pre-attached or dialled on demand; dial ok / error / slow / unknown name), several senders into one '
+         'paused destination (<= 12 outstanding), bursts above the 16-slot buffer (stuck destination, slow dial); RPC '
+         'workloads clients - proxy - Demux by source - one Serve per client (unary and the three stream kinds, OK and '
+         'error returns, rewritten service name) and sustained 30..60-message streams into a paused peer; '
+         'distinct = distinct step list; non-trivial = writes an envelope or starts a call',
+    nontrivial_ops=['w', 'ucall', 'sopen'],
+    assumptions=COMMON_ASSUMPTIONS + [
+        'hook events proxy.accept/route/drop/remove are emitted by serveClients at the decision they name',
+        'the content token of an envelope is the SHA-256 prefix of its deterministic encoding with destination, '
+        'proxy_record and proxy_next cleared',
+        'spoofed or header-less envelopes are exercised under C17 (on the code as found they crash the process, D12)'],
+    models=x_proxy.MODELS_C16)
+PROPS['C17'] = dict(
+    gen=x_proxy.generate_c17, trace_spec='ProxyTrace.tla', own_attribution=True,
+    rule='source {another attached name, unknown name, dialable name, empty, header absent} x sender {attached, dialled} x '
+         'position in live traffic; third-peer roles {stuck writer, failing reader, failing writer, dial error, slow dial, '
+         'slow dial then error, unknown name} x {before, during, after} traffic between two other peers x 0..12 envelopes '
+         'towards the third; re-attachment under the old name {before the old connection fails, after (next step), inside '
+         'the disconnect callback} x {read, write failure}; context cancellation after every step of 8 role scenarios '
+         'followed by writes and a goroutine census; non-trivial = contains a fault, a cancellation or a bad envelope',
+    nontrivial_ops=['fault', 'cancel', 'w', 'reattach_cb'],
+    assumptions=COMMON_ASSUMPTIONS + [
+        'hook events proxy.accept/route/drop/remove are emitted by serveClients at the decision they name',
+        'a transport honours the context passed to Read/Write (the harness links do)',
+        'the census counts goroutines of the scenario with a goat frame; raw peers have none'],
+    models=x_proxy.MODELS_C17)
